@@ -265,6 +265,7 @@ class _Ctx:
         self.sentinel = D.generator_class.SENTINEL_LINE_BREAK
         self.base = None
         self.norm_base = {}
+        self.base_comments = []
         self.known = None
 
 
@@ -286,6 +287,8 @@ def evaluate(ctx, o, count=None):
     if st == "err":
         v["reparse"] = (error_cause(parsed), f"output does not parse: {str(parsed)[:100]}", out)
     else:
+        if o["comments"] and count is not None and sorted(comment_texts(parsed)) != ctx.base_comments:
+            count["cmt_differs"] += 1  # observation only: `==` does not look at comments
         a = normalise(parsed, o)
         sig = (o["comments"] is False, o["identify"] is not False, o["normalize_functions"] is not None)
         b = ctx.norm_base.get(sig)
@@ -324,7 +327,7 @@ def check_tree(item):
     """item = (sql, d, variant, combo kind) -> dict"""
     sql, d, variant, kind = item
     D = Dialect.get_or_raise(d or None)
-    res = {"status": None, "evals": 0, "count": {"sql": 0, "parse_one": 0}, "skipped_combos": 0, "trees": 0, "nontrivial": 0, "viol": [],
+    res = {"status": None, "evals": 0, "count": {"sql": 0, "parse_one": 0, "cmt_differs": 0}, "skipped_combos": 0, "trees": 0, "nontrivial": 0, "viol": [],
            "cmt_differs": 0}
     st, trees = build_trees(sql, d, variant)
     if st != "ok":
@@ -343,6 +346,7 @@ def check_tree(item):
             res["status"] = {"err": "base-unparsable(C01)", "foreign": "skipped-foreign", "hang": "skipped-hang"}[stb]
             continue
         ctx.base = base
+        ctx.base_comments = sorted(comment_texts(base))
         known = comment_texts(tree)
         if known:
             stc, clean = _call(lambda: _strip_comments(tree).sql(dialect=d or None))
@@ -378,7 +382,7 @@ def items_for(tier):
     stats = {}
     n_plain = len(corpus.STATEMENTS) + len(EXTRA_STATEMENTS)
     if tier == "quick":
-        # plain statements x all dialects; comment variants: base dialect gets all, every other dialect a rotating third
+        # plain statements x all dialects; comment variants: base dialect gets all, every other dialect a rotating sixth
         others = [d for d in ds if d]
         for g, (s, var) in enumerate(src):
             if var is None:
@@ -386,7 +390,7 @@ def items_for(tier):
                     items.append((s, d, var, "cover"))
             else:
                 items.append((s, "", var, "cover"))
-                for d in others[g % 3::3]:
+                for d in others[g % 6::6]:
                     items.append((s, d, var, "cover"))
     else:
         for s, var in src:
@@ -424,12 +428,13 @@ def run(tier, seed):
     res = harness.pool_map(check_tree, work, chunksize=1 if tier != "quick" else max(1, len(work) // (harness.WORKERS * 24)))
     status, by_key, counts = {}, {}, {}
     calls = {"Expression.sql": 0, "sqlglot.parse_one": 0}
-    evals = trees = skipped_combos = 0
+    evals = trees = skipped_combos = cmt_differs = 0
     for it, r in zip(work, res):
         status[r["status"]] = status.get(r["status"], 0) + 1
         evals += r["evals"]
         trees += r["nontrivial"]
         skipped_combos += r["skipped_combos"]
+        cmt_differs += r["count"]["cmt_differs"]
         calls["Expression.sql"] += r["count"]["sql"]
         calls["sqlglot.parse_one"] += r["count"]["parse_one"]
         for key, what, inp in r["viol"]:
@@ -456,6 +461,7 @@ def run(tier, seed):
         "input_families": stats,
         "status": status,
         "skipped_combinations": skipped_combos,
+        "observations": {"comments_on_combinations_whose_reparsed_comment_multiset_differs_from_the_default_output": cmt_differs},
         "samples": [[it[0][:80], it[1], it[2], it[3]] for it in (items[0], items[len(items) // 3], items[len(items) // 2], items[-1])],
         "violations": violations,
         "violation_counts": dict(sorted(counts.items())),
